@@ -8,14 +8,17 @@
 EXTENDS Naturals, Sequences, FiniteSets
 Roles == <<"cid", "slot", "sig", "gsfa", "sigexists", "blocktime">>   \* order in which the code opens them
 RoleSet == {Roles[i] : i \in 1..Len(Roles)}
-Sources == {"A", "B", "C", "D"}
-SrcEpoch(s) == IF s \in {"B", "D"} THEN 2 ELSE 1
-SrcRoot(s) == CASE s = "A" -> "X" [] s = "B" -> "Y" [] s = "C" -> "Z" [] s = "D" -> "X"
+\* field-level deviations of A's own files (everything else byte-identical):
+\*   Ae = the recorded epoch alone replaced by epoch 2,  Ar = the recorded root CID alone replaced by CAR Z's root,
+\*   Am = (address index only) the manifest's epoch alone replaced, the pubkey index inside the directory untouched
+Sources == {"A", "B", "C", "D", "Ae", "Ar", "Am"}
+SrcEpoch(s) == IF s \in {"B", "D", "Ae", "Am"} THEN 2 ELSE 1
+SrcRoot(s) == CASE s = "A" -> "X" [] s = "B" -> "Y" [] s = "C" -> "Z" [] s = "D" -> "X" [] s = "Ae" -> "X" [] s = "Am" -> "X" [] s = "Ar" -> "Z"
 \* a file is identified by <<kind, source>>
 FileEpoch(f) == SrcEpoch(f.src)
 FileRoot(f) == IF f.kind = "blocktime" THEN "none" ELSE SrcRoot(f.src)
 \* (a slot-to-blocktime index cannot be built with a wrong epoch: its slots would be out of range)
-Files == [kind : RoleSet, src : Sources] \ {[kind |-> "blocktime", src |-> "D"]}
+Files == {f \in [kind : RoleSet, src : Sources] : ~(f.kind = "blocktime" /\ f.src = "D") /\ (f.src = "Am" => f.kind = "gsfa")}
 
 ConsistentCfg(e, a) == /\ \A r \in RoleSet : a[r].kind = r /\ FileEpoch(a[r]) = e
                        /\ \A r, q \in RoleSet \ {"blocktime"} : FileRoot(a[r]) = FileRoot(a[q])
